@@ -62,7 +62,8 @@ def fixes (j : Json) : Fixes :=
 /-- `"affine": [gap_start, gap_extend, default_mismatch]` or null/absent = default branch -/
 def affine? (j : Json) : Option AffineCfg :=
   match getNatList? j "affine" with
-  | some [a, b, c] => some ⟨a, b, c⟩
+  | some [a, b, c] => some ⟨a, b, c, false⟩
+  | some [a, b, c, f] => some ⟨a, b, c, f != 0⟩
   | _ => none
 
 def ofQTriples (l : List (Nat × Nat × Int)) : Json :=
